@@ -514,7 +514,7 @@ func runC12(r *ev.Run) {
 		c12SSHCloseDuringSetup(r, rng.New(r.Seed, "C12-ssh-setup")) // first in its batch: nothing else has left goroutines behind yet
 	}
 	idx := 0
-	for _, sf := range allStacks() {
+	for _, sf := range append(allStacks(), closeErrStacks()...) {
 		if sf.Heavy && !isThorough(r) && sf.Name != "ssh" && sf.Name != "quic(mem)" && sf.Name != "p2pke(udp)" {
 			continue
 		}
